@@ -92,6 +92,10 @@ def ftrav(rule, prefix, fn, spec, file=None):
             rule.inst("%s#%s" % (prefix, v), why)
             continue
         for a in alist:
+            bt = _re.sub(r"\s+", "", show(a["body"]))
+            if _re.match(r"^\{?(unreachable|panic|unimplemented)!\(", bt):
+                rule.inst("%s#%s(unreachable arm)" % (prefix, v), "arm declared unreachable (counted by C09.P1)")
+                continue
             called = set()
             for n in find_all(a["body"], ("MethodCall", "Call")):
                 if n["k"] == "MethodCall":
